@@ -10,7 +10,9 @@ CONSTANTS Mode, EmitTR
 
 \* versions: a diamond with an isolated element (partial order); the chain bot < l < top is
 \* used for the total-order API
-Versions == {"bot", "l", "r", "top", "iso"}
+\* "nan" compares with nothing, not even with itself (Rust's PartialOrd admits that: f32::NAN)
+Versions == {"bot", "l", "r", "top", "iso", "nan"}
+Same(a, b) == a = b /\ a # "nan"
 Less(a, b) == <<a, b>> \in {<<"bot","l">>, <<"bot","r">>, <<"bot","top">>, <<"l","top">>, <<"r","top">>}
 Chain == {"bot", "l", "top"}
 
@@ -36,7 +38,7 @@ PartialResolve(inv) ==
         IF k = 0 THEN 0
         ELSE IF ~Matches(inv[k]) THEN f[k - 1]
         ELSE IF f[k - 1] = 0 THEN k
-        ELSE IF inv[k].ver = inv[f[k - 1]].ver \/ Less(inv[f[k - 1]].ver, inv[k].ver) THEN k ELSE f[k - 1]
+        ELSE IF Same(inv[k].ver, inv[f[k - 1]].ver) \/ Less(inv[f[k - 1]].ver, inv[k].ver) THEN k ELSE f[k - 1]
   IN f[Len(inv)]
 
 Law(inv, total) ==
